@@ -814,6 +814,7 @@ var invalidAnywhere = []string{
 	"new;", "x=;", ");", "}", "]", "throw\n1;", "var a=;", "a?b;", "a?b:;", "this=1;", "for(1 in o);", "({a:1,,b:2});", "x=\"\\u12\";", "x='\\x1';",
 	"if(1)else;", "x=a+;", "x=typeof;", "var x,;", "x={a};", "x={a:};", "x=[1 2];", "label:label:x;", "x=a..b;", "x=.;", "tru\\u0065=0;", "var \\u0069f;",
 	"x=\"abc\n\";", "x=1e;", "x=0x;",
+	"x=({+:1});", "x={0x:1};", "x={*:2,a:1};", "x={a:1,-:2};",
 	"x=/(?</;", "x=/a(?<!/;", "x=/(?<=/;", "x=/(?</g;", "x=/\\/;",
 	"x=1e3in{};", "x=.5E-2instanceof Object;", "x=0e0in[];", "x=3in[];", "x=01a;", "x=0x3in[];", "x=1.5a;", "x=1.e;",
 	"a:if(1){while(1){continue a;}}", "a:{b:for(;;){continue a;}}", "function g(){a:switch(1){case 1:for(;;){continue a}}}",
